@@ -275,10 +275,27 @@ def check_lazy(run: Run, prog: Program) -> None:
     ok = len(none_tests) == 1 and cfg.path(cfg.entry, starts + [t.id for t in run_tests], avoid=[none_tests[0].id]) is None
     run.check(ok, "C19.LAZY", fn.qual, "if self._fallback is None: primary only",
               "the fallback is dereferenced without checking that one is configured", node=fn.node, file=fn.file)
-    # fetch_next stores what _fetch_next returned
+    # fetch_next stores what _fetch_next returned, and returns that very sample
+    from ._c06_util import Flow
+
     fnx = prog.func(f"{MF}.fetch_next")
-    txt = u(fnx.node).replace(" ", "").replace("\n", "")
-    ok = "self._next_value=awaitself._fetch_next()" in txt and "returnself._next_value" in txt
+    fx = Flow(prog, fnx)
+    normal = lambda a, b, lab: not lab.startswith("exc:")  # noqa: E731
+    got = [(nid, c) for nid, c in fx.calls(lambda c: method_call(c, "self", "_fetch_next"))
+           if isinstance(fx._parent.get(id(c)), ast.Await)]
+    stores = [n.id for n in fx.cfg.nodes if n.id in fx.live and any(
+        isinstance(t, ast.Attribute) and t.attr == "_next_value" and u(t.value) == "self" for t in fx._writes(n.id))]
+    ok = len(got) == 1 and len(stores) == 1
+    if ok:
+        gn, gc = got[0]
+        st_node = fx.cfg.nodes[stores[0]].ast
+        val = getattr(st_node, "value", None)
+        ok = isinstance(st_node, (ast.Assign, ast.AnnAssign)) and val is not None and fx.is_node(val, gc, stores[0]) \
+            and fx.cfg.path(fx.cfg.entry, [fx.cfg.exit], avoid=stores, edge_ok=normal) is None
+        for r in fx.returns():
+            rv = fx.cfg.nodes[r].ast.value  # type: ignore[union-attr]
+            stored_read = rv is not None and u(rv) == "self._next_value" and fx.cfg.path(fx.cfg.entry, [r], avoid=stores) is None
+            ok = ok and rv is not None and (stored_read or fx.is_node(rv, gc, r))
     run.check(ok, "C19.LAZY", fnx.qual, "self._next_value = await self._fetch_next()",
               "the fetched sample is not what apply() later pushes", node=fnx.node, file=fnx.file)
 
